@@ -124,15 +124,37 @@ fn op_box(case: &Value) -> Value {
     out
 }
 
-fn store_once(data: &[u8]) -> Result<Vec<u8>, String> {
+fn store_once_inner(data: &[u8]) -> Result<Vec<u8>, String> {
     let s = verif_store_from_jumbf(data).map_err(|e| format!("from:{}", err_class(&e)))?;
     verif_store_to_jumbf(&s, 0).map_err(|e| format!("to:{}", err_class(&e)))
+}
+
+/// on a helper thread with a deadline: the box reader can loop forever on some inputs
+fn store_once(data: &[u8]) -> Result<Vec<u8>, String> {
+    let (tx, rx) = mpsc::channel();
+    let d = data.to_vec();
+    std::thread::Builder::new()
+        .stack_size(64 << 20)
+        .spawn(move || {
+            let r = std::panic::catch_unwind(|| store_once_inner(&d));
+            let _ = tx.send(match r {
+                Ok(v) => v,
+                Err(_) => Err("Panic".to_string()),
+            });
+        })
+        .expect("spawn");
+    match rx.recv_timeout(Duration::from_secs(20)) {
+        Ok(v) => v,
+        Err(_) => Err("Hang".to_string()),
+    }
 }
 
 fn op_store(case: &Value) -> Value {
     let data = hexd(&case["data"]);
     let b1 = match store_once(&data) {
         Ok(b) => b,
+        Err(e) if e == "Hang" => return json!({"r": "hang"}),
+        Err(e) if e == "Panic" => return json!({"r": "panic"}),
         Err(e) => return json!({"r": "err", "kind": e}),
     };
     let mut out = json!({"r": "ok", "same_as_input": b1 == data, "len1": b1.len()});
